@@ -97,6 +97,7 @@ class _Env:
 
   def rel(self, path):
     r = self.root.rstrip('/')
+    path = os.path.normpath(path)
     if path == r:
       return ''
     return path[len(r) + 1:] if path.startswith(r + '/') else '//' + path
@@ -274,7 +275,8 @@ class _Patched:
     from fedjax.datasets import downloads as dl
     import requests
     if not _SAVED:
-      _SAVED.update(os=dl.os, requests=dl.requests, lzma=dl.lzma, log=dl.log, has_open=hasattr(dl, 'open'))
+      _SAVED.update(os=dl.os, requests=dl.requests, lzma=dl.lzma, log=dl.log, has_open=hasattr(dl, 'open'),
+                    dcd=dl.default_cache_dir)
     env = self.env
 
     def fake_open(path, mode='r', *a, **k):
@@ -294,6 +296,7 @@ class _Patched:
   def __exit__(self, *a):
     from fedjax.datasets import downloads as dl
     dl.os, dl.requests, dl.lzma, dl.log = _SAVED['os'], _SAVED['requests'], _SAVED['lzma'], _SAVED['log']
+    dl.default_cache_dir = _SAVED['dcd']
     if hasattr(dl, 'open'):
       del dl.open
     return False
@@ -329,11 +332,20 @@ def _attempt(case, root, fault, compressed):
   with _Patched(env):
     try:
       if kind == 'download':
-        r = dl.maybe_download(URL, root)
+        form = case.get('form', 0)
+        if form == 1:      # query string and fragment are not part of the file name; progress_ = range
+          r = dl.maybe_download(URL + '?alt=media&x=a/b.c#frag/x.y', root, range)
+        elif form == 2:    # cache_dir omitted: default_cache_dir(); progress_ a one-shot iterator factory, by keyword
+          dl.default_cache_dir = lambda: root
+          r = dl.maybe_download(url=URL, progress_=lambda n: iter(range(n)))
+        elif form == 3:    # cache_dir with a trailing separator, keywords
+          r = dl.maybe_download(URL, cache_dir=root + os.sep)
+        else:
+          r = dl.maybe_download(URL, root)
       else:
         r = dl.maybe_lzma_decompress(os.path.join(root, 'data.lzma'))
       out['outcome'] = 'ret'
-      out['ret_ok'] = (r == os.path.join(root, final))
+      out['ret_ok'] = (os.path.normpath(r) == os.path.join(root, final))
     except crashfs.SimCrash:
       out['outcome'] = 'crash'
     except Exception as ex:  # pylint: disable=broad-except
@@ -355,8 +367,11 @@ def _run_attempts(case, faults):
   outs = []
   try:
     root = os.path.join(base, 'cache')
-    if case['kind'] == 'decompress':
+    if case['kind'] == 'decompress' or case.get('stale'):
       os.makedirs(root)
+    if case.get('stale'):     # a stale temporary, longer than the payload and not a prefix of it
+      with open(os.path.join(root, FINAL[case['kind']] + '.partial'), 'wb') as f:
+        f.write(b'\xff' * (case['size'] + case['stale']))
     for f in faults:
       outs.append(_attempt(case, root, f, compressed))
   finally:
@@ -511,6 +526,9 @@ def _run_cifar(case, faults=None):
   try:
     open(os.path.join(base, 'cifar100.sqlite.lzma'), 'wb').close()
     open(os.path.join(base, 'cifar100.sqlite'), 'wb').close()
+    if case.get('stale'):
+      with open(os.path.join(base, f'federated_cifar100_{case["split"]}.sqlite.partial'), 'wb') as f:
+        f.write(b'not a database ' * case['stale'])
     for f in (faults if faults is not None else _split_faults(case) + [None, ['forbidden']]):
       outs.append(_split_attempt(case, base, f))
   finally:
@@ -518,7 +536,104 @@ def _run_cifar(case, faults=None):
   return {'attempts': outs, 'size': SPLIT_TOTAL}
 
 
+# --------------------------------------------------------------------------
+# validate_file (the "size + sha256 validation" mechanism) and argument errors, judged by the oracle alone
+
+def _run_validate(case):
+  import hashlib
+  from fedjax.datasets import downloads as dl
+  data = _payload(case['size'])
+  base = tempfile.mkdtemp(prefix='C19-val-')
+  try:
+    p = os.path.join(base, 'f')
+    with open(p, 'wb') as f:
+      f.write(data)
+    nbytes = len(data) + case['dsize']
+    other = data[:-1] + bytes([data[-1] ^ 1]) if case['flip'] and data else data
+    digest = hashlib.sha256(other).hexdigest()
+    if case['flip'] and not data:
+      digest = hashlib.sha256(b'x').hexdigest()
+    if case['upper']:
+      digest = digest.upper()
+    try:
+      r = dl.validate_file(p, nbytes, digest)
+      out = 'ret:' + repr(r)
+    except ValueError:
+      out = 'ValueError'
+    except Exception as ex:  # pylint: disable=broad-except
+      out = 'raise:' + type(ex).__name__
+    with open(p, 'rb') as f:
+      unchanged = f.read() == data
+  finally:
+    shutil.rmtree(base, ignore_errors=True)
+  return {'validate': out, 'unchanged': unchanged}
+
+
+def _run_misc(case):
+  """Calls that must raise ValueError and leave the cache directory untouched."""
+  from fedjax.datasets import cifar100
+  from fedjax.datasets import downloads as dl
+  base = tempfile.mkdtemp(prefix='C19-misc-')
+  try:
+    before = crashfs.listing(base)
+    try:
+      if case['what'] == 'not-lzma':
+        p = os.path.join(base, case['name'])
+        with open(p, 'wb') as f:
+          f.write(b'abc')
+        before = crashfs.listing(base)
+        dl.maybe_lzma_decompress(p)
+      elif case['what'] == 'bad-split':
+        cifar100.load_split(case['name'], cache_dir=base)
+      else:
+        cifar100.load_split('train', mode=case['name'], cache_dir=base)
+      out = 'ret'
+    except ValueError:
+      out = 'ValueError'
+    except Exception as ex:  # pylint: disable=broad-except
+      out = 'raise:' + type(ex).__name__
+    after = crashfs.listing(base)
+  finally:
+    shutil.rmtree(base, ignore_errors=True)
+  return {'misc': out, 'untouched': before == after}
+
+
+def _oracle_extra(case, obs):
+  if case['kind'] == 'validate':
+    bad = case['dsize'] != 0 or case['flip'] or case['upper']     # hexdigest() is lower case
+    want = 'ValueError' if bad else 'ret:None'
+    out = []
+    if obs['validate'] != want:
+      out.append(('validate-file-verdict', f'validate_file on {case} gave {obs["validate"]}, expected {want}'))
+    if not obs['unchanged']:
+      out.append(('validate-file-modifies', 'validate_file changed the file'))
+    return out
+  out = []
+  if obs['misc'] != 'ValueError' or not obs['untouched']:
+    out.append(('argument-error', f'{case}: outcome {obs["misc"]}, cache untouched: {obs["untouched"]}'))
+  return out
+
+
+def _extra_cases():
+  for size in (0, 1, 1000):
+    for dsize in (0, 1, -1):
+      for flip in (0, 1):
+        for upper in (0, 1):
+          if size == 0 and dsize < 0:
+            continue
+          yield {'kind': 'validate', 'size': size, 'dsize': dsize, 'flip': flip, 'upper': upper}
+  for name in ('data.sqlite', 'data.lzma.txt', 'lzma', 'data.LZMA', 'data'):
+    yield {'kind': 'misc', 'what': 'not-lzma', 'name': name}
+  for name in ('', 'Train', 'valid'):
+    yield {'kind': 'misc', 'what': 'bad-split', 'name': name}
+  yield {'kind': 'misc', 'what': 'bad-mode', 'name': 'tff'}
+
+
 def run(case):
+  if case['kind'] == 'validate':
+    return _run_validate(case)
+  if case['kind'] == 'misc':
+    return _run_misc(case)
   if case['kind'] == 'cifar_split':
     return _run_cifar(case)
   faults = [list(f) for f in case['attempts']] + [None, ['forbidden']]
@@ -528,6 +643,8 @@ def run(case):
 # --------------------------------------------------------------------------
 
 def oracle(case, obs):
+  if case['kind'] in ('validate', 'misc'):
+    return _oracle_extra(case, obs)
   out = []
   n = obs['size']
   kind = 'split' if case['kind'] == 'cifar_split' else case['kind']
@@ -616,10 +733,12 @@ def _encode_split(case, obs):
     code = {'ret': 0, 'crash': 2}.get(a['outcome'], 1)
     ocalls.append(f'(mkOCall {fw.clist([_oev(e, final) for e in a["trace"]])} {code} {_ofile(a["final"])} '
                   f'{_ofile(a["partial"])})')
-  return f'(mkC19 {fw.clist(calls)}, mkO19 {fw.clist(ocalls)})'
+  return f'(mkC19 {fw.clist(calls)} {fw.cbool(bool(case.get("stale")))}, mkO19 {fw.clist(ocalls)})'
 
 
 def encode(case, obs):
+  if case['kind'] in ('validate', 'misc'):
+    return None
   if case['kind'] == 'cifar_split':
     return _encode_split(case, obs)
   att = obs['attempts']
@@ -670,7 +789,7 @@ def encode(case, obs):
     code = {'ret': 0, 'crash': 2}.get(a['outcome'], 1)
     ocalls.append(f'(mkOCall {fw.clist([_oev(e, FINAL[kind]) for e in a["trace"]])} {code} {_ofile(a["final"])} '
                   f'{_ofile(a["partial"])})')
-  return f'(mkC19 {fw.clist(calls)}, mkO19 {fw.clist(ocalls)})'
+  return f'(mkC19 {fw.clist(calls)} {fw.cbool(bool(case.get("stale")))}, mkO19 {fw.clist(ocalls)})'
 
 
 # --------------------------------------------------------------------------
@@ -733,9 +852,12 @@ def generate(tier, rng):
         hist.append(rng.choice(_single_faults(case, True, i)))
         yield {**case, 'attempts': list(hist)}
     return
+  yield from _extra_cases()
   for split in ('train', 'test'):
     case = {'kind': 'cifar_split', 'split': split, 'attempts': []}
     yield case
+    yield {**case, 'stale': 3}
+    yield {**case, 'stale': 3, 'attempts': [['cerr', 1]]}
     tr = _run_cifar(case, [None])['attempts'][-1]['trace']
     singles = [['cerr', j] for j in range(SPLIT_TOTAL + 1)] + [['short']] + [['crash', k, 0, 0] for k in range(len(tr) + 1)]
     for f in singles:
@@ -746,9 +868,11 @@ def generate(tier, rng):
       yield {**case, 'attempts': [rng.choice(singles) for _ in range(rng.randrange(2, 5))]}
   for kind in ('download', 'decompress'):
     for i, n in enumerate(sizes[kind]):
-      case = {'kind': kind, 'size': n, 'attempts': []}
+      case = {'kind': kind, 'size': n, 'attempts': [], 'form': i % 4}
       yield case
+      yield {**case, 'stale': 1 + i}                       # a stale .partial longer than the payload
       singles = _single_faults(case, full, i)
+      yield {**case, 'stale': 1 + i, 'attempts': [singles[i % len(singles)]]}
       for f in singles:
         yield {**case, 'attempts': [f]}
       # repeated interruptions, then success
@@ -762,10 +886,14 @@ def generate(tier, rng):
 
 
 def nontrivial(case, obs):
+  if case['kind'] in ('validate', 'misc'):
+    return True
   return any(a['outcome'] != 'ret' for a in obs['attempts'])
 
 
 def describe(case, obs):
+  if case['kind'] in ('validate', 'misc'):
+    return {'kind': case['kind']}
   if case['kind'] == 'cifar_split':
     fs = _split_faults(case)
     return {'kind': 'cifar_split', 'interruptions': len(fs), 'faults': '+'.join(sorted({f[0] for f in fs})) or '-',
@@ -779,6 +907,8 @@ def describe(case, obs):
 
 
 def shrink(case):
+  if case['kind'] in ('validate', 'misc'):
+    return
   if case['kind'] == 'cifar_split':
     fs = _split_faults(case)
     for j in range(len(fs)) if len(fs) > 1 else []:
